@@ -248,6 +248,9 @@ func (w *World) Reopen() {
 // Close deletes the cache instance (skipped for pooled caches, whose whole directory is dropped instead:
 // badger's DropPrefix stalls every writer of the DB).
 func (w *World) Close() {
+	if w.Opts.MakeTarget != nil && w.Target != nil {
+		_ = w.Target.Close() // production targets hold connections
+	}
 	if _, pooled := w.Raw.(*pooledCache); pooled {
 		return
 	}
